@@ -996,3 +996,76 @@ Proof.
   apply find_index_nth in Hf. assert (hop = p) by congruence. subst p.
   exists t. split; auto. exists a. rewrite Hd. auto.
 Qed.
+
+(* ======================================================================================== *)
+(* Part 6: a neighbour that is connected now is live in the node's own link state, whatever    *)
+(* happened before (lost and come back before the purge, purged and come back)                *)
+
+Lemma assoc_get_set_same : forall k v l, dt_assoc_get k (dt_assoc_set k v l) = Some v.
+Proof.
+  intros k v l. induction l as [|[k' v'] l IH]; cbn [dt_assoc_set dt_assoc_get].
+  - now rewrite N.eqb_refl.
+  - destruct (k' =? k)%N eqn:E; cbn [dt_assoc_get]; [now rewrite N.eqb_refl|]. now rewrite E.
+Qed.
+
+Lemma assoc_get_set_other : forall k k' v l, k' <> k -> dt_assoc_get k (dt_assoc_set k' v l) = dt_assoc_get k l.
+Proof.
+  intros k k' v l Hne. induction l as [|[k2 v2] l IH]; cbn [dt_assoc_set dt_assoc_get].
+  - apply N.eqb_neq in Hne. now rewrite Hne.
+  - destruct (k2 =? k')%N eqn:E; cbn [dt_assoc_get].
+    + apply N.eqb_eq in E. subst k2. apply N.eqb_neq in Hne. now rewrite Hne.
+    + now rewrite IH.
+Qed.
+
+Lemma assoc_get_filter_live : forall (f : N * N -> bool) k l,
+  (forall kv, snd kv = 0%N -> f kv = true) ->
+  dt_assoc_get k l = Some 0%N -> dt_assoc_get k (filter f l) = Some 0%N.
+Proof.
+  intros f k l Hf. induction l as [|[k' v'] l IH]; cbn [dt_assoc_get filter]; [discriminate|].
+  destruct (k' =? k)%N eqn:E.
+  - intros [= ->]. rewrite (Hf (k', 0%N) eq_refl). cbn [dt_assoc_get]. now rewrite E.
+  - intros H. destruct (f (k', v')); cbn [dt_assoc_get]; [rewrite E|]; auto.
+Qed.
+
+Lemma dt_notify_own : forall st d, dt_own (dt_notify st d) = dt_own st.
+Proof.
+  intros st d. unfold dt_notify. destruct (dt_recv_get (pd_id d) (dt_recv st)); [|reflexivity].
+  destruct (dt_should_replace d d0); reflexivity.
+Qed.
+
+Lemma dt_cron_own : forall st now, dt_own (dt_recompute_cron st now) = dt_own st.
+Proof. intros st now. unfold dt_recompute_cron. destruct (dt_peer_change st || dt_recv_change st); reflexivity. Qed.
+
+Lemma connected_live_from : forall ops st acc p,
+  dt_connected_from acc ops p = true ->
+  (acc = true -> dt_assoc_get p (dt_own st) = Some 0%N) ->
+  dt_assoc_get p (dt_own (dt_run st ops)) = Some 0%N.
+Proof.
+  induction ops as [|o ops IH]; intros st acc p Hc Hacc; cbn [dt_connected_from dt_run fold_left] in *.
+  - auto.
+  - change (fold_left dt_step ops (dt_step st o)) with (dt_run (dt_step st o) ops).
+    destruct o as [d|q now|q now|now pt|now|now]; cbn [dt_step dt_connected_from] in *.
+    + apply (IH _ acc); auto. now rewrite dt_notify_own.
+    + eapply IH; [exact Hc|]. cbn [dt_appear dt_own]. destruct (q =? p)%N eqn:E.
+      * intros _. apply N.eqb_eq in E. subst q. apply assoc_get_set_same.
+      * intros Ha. apply N.eqb_neq in E. rewrite assoc_get_set_other by exact E. auto.
+    + eapply IH; [exact Hc|]. cbn [dt_disappear dt_own]. destruct (q =? p)%N eqn:E.
+      * discriminate.
+      * intros Ha. apply N.eqb_neq in E. rewrite assoc_get_set_other by exact E. auto.
+    + apply (IH _ acc); auto. intros Ha. cbn [dt_purge dt_own]. apply assoc_get_filter_live; auto.
+      intros kv E. rewrite E. reflexivity.
+    + apply (IH _ acc); auto.
+    + apply (IH _ acc); auto. now rewrite dt_cron_own.
+Qed.
+
+(* ... so its link costs 0 at every recomputation, and no purge removes it while it is connected *)
+Theorem connected_neighbour_live : forall st ops p now,
+  dt_connected ops p = true ->
+  dt_assoc_get p (dt_own (dt_run st ops)) = Some 0%N /\
+  In (p, 0%N) (dt_own (dt_run st ops)) /\ dt_edge_cost now 0 = 0%Z.
+Proof.
+  intros st ops p now H.
+  assert (G : dt_assoc_get p (dt_own (dt_run st ops)) = Some 0%N).
+  { eapply connected_live_from; [exact H|discriminate]. }
+  split; [exact G|]. split; [apply assoc_get_in; exact G|reflexivity].
+Qed.
